@@ -5,6 +5,7 @@ import TacklerModel.Model.Print
 import TacklerModel.Lemmas.RoundTripTxn
 import TacklerModel.Props.C06b
 import TacklerModel.Props.C10
+import TacklerModel.Props.E2E
 /-!
 # Helper lemmas of `Props/E2Eb.lean`
 
@@ -446,6 +447,232 @@ theorem allLines_some : ∀ (out : List EqTxn), (∀ t ∈ out, TsOK t.ts = true
 theorem equityText_some (out : List EqTxn) (h : ∀ t ∈ out, TsOK t.ts = true) : ∃ s, equityText out = some s := by
   obtain ⟨ls, hls⟩ := allLines_some out h
   exact ⟨_, by unfold equityText; rw [hls]⟩
+
+
+/-! ## 4. the export of well-formed source transactions is well-formed -/
+
+theorem units_ne_zero (d : Dec) (h : d.isZero = false) : d.units ≠ 0 := by
+  have hc : d.coeff ≠ 0 := by simpa [Dec.isZero] using h
+  unfold Dec.units
+  have h1 : sgn d.neg ≠ 0 := by cases d.neg <;> simp [sgn]
+  have h2 : ((d.coeff : Nat) : Int) ≠ 0 := by exact_mod_cast hc
+  have h3 : (10 : Int) ^ (28 - d.scale) ≠ 0 := Int.pow_ne_zero (by decide)
+  exact Int.mul_ne_zero (Int.mul_ne_zero h1 h2) h3
+
+/-- a balance row with a non-zero own sum is posted to: some posting of the selection has its account and commodity -/
+theorem row_posted (sb : Settings) (txns : List Txn) (hpw : C02.PostsWF (postsOf txns)) (all : List BalRow)
+    (hall : balance sb (postsOf txns) = .ok all) (r : BalRow) (hr : r ∈ all) (hnz : r.own.isZero = false) :
+    ∃ t ∈ txns, ∃ q ∈ t.posts, q.acct = r.acct ∧ q.comm = r.comm := by
+  have hown := C02.own_sum sb _ hpw all hall r hr
+  have hne : C02.ownSum (postsOf txns) r.key ≠ 0 := by rw [← hown]; exact units_ne_zero r.own hnz
+  unfold C02.ownSum at hne
+  cases hf : (postsOf txns).filter (fun p => decide (p.key = r.key)) with
+  | nil => rw [hf] at hne; exact absurd rfl hne
+  | cons p rest =>
+    have hp : p ∈ (postsOf txns).filter (fun p => decide (p.key = r.key)) := by rw [hf]; exact List.mem_cons_self
+    obtain ⟨hp1, hp2⟩ := List.mem_filter.mp hp
+    have hk : p.key = r.key := by simpa using hp2
+    obtain ⟨t, ht, q, hq, rfl⟩ := (mem_postsOf txns p).mp hp1
+    simp only [BPost.key, BalRow.key, Prod.mk.injEq] at hk
+    exact ⟨t, ht, q, hq, hk.2, hk.1⟩
+
+/-- the own sums of a balance are representable when the posted amounts are -/
+theorem balance_own_wf (sb : Settings) (posts : List BPost) (rows : List BalRow)
+    (hwf : ∀ p ∈ posts, p.amount.scale ≤ 28 ∧ p.amount.coeff ≤ max96) (h : balance sb posts = .ok rows) :
+    ∀ r ∈ rows, r.own.scale ≤ 28 ∧ r.own.coeff ≤ max96 := by
+  refine EqL.balance_P (fun d => d.scale ≤ 28 ∧ d.coeff ≤ max96) (by simp [Dec.zero]) sb posts rows ?_ h
+  intro sums hs ks hks
+  unfold accountSums at hs
+  obtain ⟨g, hg, hsum⟩ := EqL.sumGroups_mem _ _ hs ks hks
+  refine C06.sumFrom_wf _ Dec.zero ks.2 (by simp [Dec.zero]) (by simp [Dec.zero]) ?_ hsum
+  intro d hd
+  obtain ⟨p, hp, rfl⟩ := List.mem_map.mp hd
+  have := EqL.chunkBy_sub BPost.key _ _ hg p hp
+  exact hwf p ((List.mergeSort_perm posts _).mem_iff.mp this)
+
+theorem lineText_of_noWs (l : List Char) (h : ∀ c ∈ l, isWhitespace c = false) : LineText l := by
+  intro c hc
+  have := h c hc
+  simp only [notEol, Bool.and_eq_true, bne_iff_ne, ne_eq]
+  constructor <;> (intro e; subst e; revert this; decide)
+
+theorem trimEnd_noWs : ∀ (l : List Char), (∀ c ∈ l, isWhitespace c = false) → trimEnd l = l := by
+  intro l
+  induction l with
+  | nil => intro _; rfl
+  | cons c t ih =>
+    intro h
+    have e := ih (fun d hd => h d (List.mem_cons_of_mem _ hd))
+    simp only [trimEnd, e]
+    cases t with
+    | nil => simp [h c List.mem_cons_self]
+    | cons a b => rfl
+
+/-- text ending in a non-empty run without white space is right-trimmed -/
+theorem trimEnd_append_noWs : ∀ (x y : List Char), y ≠ [] → (∀ c ∈ y, isWhitespace c = false) → trimEnd (x ++ y) = x ++ y := by
+  intro x
+  induction x with
+  | nil => intro y _ h; exact trimEnd_noWs y h
+  | cons d x ih =>
+    intro y hy h
+    have e := ih y hy h
+    simp only [List.cons_append, trimEnd, e]
+    cases hxy : x ++ y with
+    | nil => exact absurd (List.append_eq_nil_iff.mp hxy).2 hy
+    | cons a b => rfl
+
+
+
+theorem validId_noWs (l : List Char) (h : isValidId l = true) : l ≠ [] ∧ ∀ c ∈ l, isWhitespace c = false := by
+  unfold isValidId at h
+  split at h
+  · cases h
+  · rename_i c t
+    simp only [Bool.and_eq_true, Bool.not_eq_true', List.any_eq_false] at h
+    refine ⟨by simp, ?_⟩
+    intro d hd
+    have := h.2 d hd
+    simp only [illegalCharacters, Bool.or_eq_true, not_or, Bool.not_eq_true] at this
+    exact this.2
+
+theorem uuid_noWs (u : List Char) (h : UuidWF u) : u ≠ [] ∧ ∀ c ∈ u, isWhitespace c = false := by
+  refine ⟨?_, ?_⟩
+  · intro e; have := uuidWF_length u h; rw [e] at this; cases this
+  · intro c hc
+    rcases uuidWF_chars u h c hc with h1 | rfl
+    · simp only [isLowerHex, isDecDigit, Bool.or_eq_true, Bool.and_eq_true, decide_eq_true_eq] at h1
+      simp only [isWhitespace, inRange, Bool.or_eq_false_iff, Bool.and_eq_false_iff, decide_eq_false_iff_not, beq_eq_false_iff_ne]
+      omega
+    · decide
+
+theorem lineText_append {a b : List Char} (ha : LineText a) (hb : LineText b) : LineText (a ++ b) := by
+  intro c hc
+  rcases List.mem_append.mp hc with h | h
+  · exact ha c h
+  · exact hb c h
+
+/-- the description of a generated transaction is one line and right-trimmed -/
+theorem eqDesc_wf (c : String) (uuid : Option String) (hc : c = "" ∨ isValidId c.toList = true)
+    (hu : ∀ u, uuid = some u → UuidWF u.toList) :
+    LineText (eqDesc c uuid).toList ∧ trimEnd (eqDesc c uuid).toList = (eqDesc c uuid).toList := by
+  have hE : ∀ ch ∈ "Equity".toList, isWhitespace ch = false := by decide
+  have hEne : "Equity".toList ≠ [] := by decide
+  have hF : LineText " for ".toList := by unfold LineText; decide
+  have hL : LineText ": last txn (uuid): ".toList := by unfold LineText; decide
+  have hcs : (commStr c).toList = [] ∨ ((commStr c).toList = " for ".toList ++ c.toList ∧ c.toList ≠ [] ∧
+      ∀ ch ∈ c.toList, isWhitespace ch = false) := by
+    unfold commStr
+    by_cases he : c = ""
+    · left; rw [if_pos he]; rfl
+    · right; rw [if_neg he]; exact ⟨by simp, validId_noWs _ (hc.resolve_left he)⟩
+  have hus : (uuidStr uuid).toList = [] ∨ ∃ u, (uuidStr uuid).toList = ": last txn (uuid): ".toList ++ u ∧ u ≠ [] ∧
+      ∀ ch ∈ u, isWhitespace ch = false := by
+    cases uuid with
+    | none => left; rfl
+    | some u =>
+      have e : (uuidStr (some u)).toList = ": last txn (uuid): ".toList ++ u.toList := by
+        rw [show uuidStr (some u) = ": last txn (uuid): " ++ u from rfl, String.toList_append]
+      have hw := uuid_noWs _ (hu u rfl)
+      exact Or.inr ⟨u.toList, e, hw.1, hw.2⟩
+  have hform : (eqDesc c uuid).toList = "Equity".toList ++ ((commStr c).toList ++ (uuidStr uuid).toList) := by
+    simp [eqDesc]
+  rw [hform]
+  rcases hus with hu0 | ⟨u, hu1, hune, huw⟩
+  · rw [hu0, List.append_nil]
+    rcases hcs with hc0 | ⟨hc1, hcne, hcw⟩
+    · rw [hc0, List.append_nil]
+      exact ⟨lineText_of_noWs _ hE, trimEnd_append_noWs [] _ hEne hE⟩
+    · rw [hc1, ← List.append_assoc]
+      exact ⟨lineText_append (lineText_append (lineText_of_noWs _ hE) hF) (lineText_of_noWs _ hcw),
+        trimEnd_append_noWs _ _ hcne hcw⟩
+  · rw [hu1]
+    have hcl : LineText (commStr c).toList := by
+      rcases hcs with hc0 | ⟨hc1, _, hcw⟩
+      · rw [hc0]; intro _ h; cases h
+      · rw [hc1]; exact lineText_append hF (lineText_of_noWs _ hcw)
+    refine ⟨lineText_append (lineText_of_noWs _ hE) (lineText_append hcl (lineText_append hL (lineText_of_noWs _ huw))), ?_⟩
+    have : "Equity".toList ++ ((commStr c).toList ++ (": last txn (uuid): ".toList ++ u)) =
+        ("Equity".toList ++ ((commStr c).toList ++ ": last txn (uuid): ".toList)) ++ u := by simp
+    rw [this]
+    exact trimEnd_append_noWs _ _ hune huw
+
+
+
+theorem warningLines_lineText : ∀ c ∈ warningLines, LineText c.toList := by
+  unfold LineText; decide
+
+/-- **the export of well-formed transactions is well-formed**: every generated transaction of an equity export over
+    transactions satisfying C06's `WF` (what the acceptor produces from text) has a printable timestamp, a one-line
+    right-trimmed description, one-line comments (given that the metadata texts `md` are single lines) and posting
+    lines with valid account and commodity names (given that the equity account is a valid name) and representable
+    amounts -/
+theorem export_wf (sb : Settings) (acc : Option (Path → Bool)) (eqa : Path) (md : List String) (txns : List Txn)
+    (out : List EqTxn) (hsrc : ∀ t ∈ txns, C06.WF div0 t) (hpw : C02.PostsWF (postsOf txns))
+    (he : equityExport sb acc eqa md txns = .ok out)
+    (heqa : AcctLex eqa) (hmd : ∀ c ∈ md, LineText c.toList) : ∀ t ∈ out, EqTxnWF t := by
+  obtain ⟨all, hall, hcase⟩ := C10.export_inv sb acc eqa md txns out he
+  have hgood := C10.export_good sb acc eqa md txns out he
+  rcases hcase with ⟨_, rfl⟩ | ⟨_, last, hlast, hout⟩
+  · intro t ht; cases ht
+  · intro t ht
+    have hlm : last ∈ txns := List.mem_of_getLast? hlast
+    obtain ⟨kg, hkg, hk⟩ := C10.eqTxns_mem eqa last.header md _ out hout t ht
+    obtain ⟨hkne, hkeys⟩ := EqL.chunkBy_keys (fun r : BalRow => r.comm) _ kg hkg
+    have hsub := EqL.chunkBy_sub (fun r : BalRow => r.comm) _ kg hkg
+    -- the postings amounts of the source are representable
+    have hposts : ∀ p ∈ postsOf txns, p.amount.scale ≤ 28 ∧ p.amount.coeff ≤ max96 := by
+      intro p hp
+      obtain ⟨t', ht', q, hq, rfl⟩ := (mem_postsOf txns p).mp hp
+      have := ((hsrc t' ht').posts q hq).amount
+      exact ⟨this.1, this.2.1⟩
+    have hown := balance_own_wf sb _ all hposts hall
+    -- every selected row: posted, hence lexically good names
+    have hrow : ∀ r ∈ kg.2, r ∈ all ∧ r.own.isZero = false ∧ AcctLex r.acct ∧
+        (r.comm = "" ∨ (IdentWF r.comm.toList ∧ isValidId r.comm.toList = true)) := by
+      intro r hr
+      have hrs := hsub r hr
+      simp only [C10.selRows, List.mem_filter] at hrs
+      have hnz := C10.nonZeroSel_nonzero acc r hrs.2
+      obtain ⟨t', ht', q, hq, ha, hc⟩ := row_posted sb txns hpw all hall r hrs.1 hnz
+      have hq' := (hsrc t' ht').posts q hq
+      exact ⟨hrs.1, hnz, ha ▸ hq'.acct, hc ▸ hq'.comm⟩
+    -- the commodity of the chunk
+    have hcomm : kg.1 = "" ∨ (IdentWF kg.1.toList ∧ isValidId kg.1.toList = true) := by
+      obtain ⟨r0, rs, hr0⟩ := List.exists_cons_of_ne_nil hkne
+      have hm : r0 ∈ kg.2 := by rw [hr0]; exact List.mem_cons_self
+      have := (hrow r0 hm).2.2.2
+      rw [hkeys r0 hm] at this
+      exact this
+    obtain ⟨dsum, hd, rfl⟩ := C10.eqTxn_spec eqa last.header md kg.1 kg.2 t hk
+    have hdw : dsum.scale ≤ 28 ∧ dsum.coeff ≤ max96 := by
+      refine C06.sumFrom_wf _ Dec.zero dsum (by simp [Dec.zero]) (by simp [Dec.zero]) ?_ hd
+      intro d hdm
+      obtain ⟨r, hr, rfl⟩ := List.mem_map.mp hdm
+      exact hown r (hrow r hr).1
+    refine ⟨(hsrc last hlm).ts, ?_, ?_, (hgood _ ht).nonempty, ?_⟩
+    · exact eqDesc_wf kg.1 last.header.uuid (hcomm.imp id (fun h => h.2)) (hsrc last hlm).header.metaOK.uuid
+    · intro c hc
+      rcases List.mem_append.mp hc with h | h
+      · exact hmd c h
+      · unfold warning at h
+        split at h
+        · exact warningLines_lineText c h
+        · cases h
+    · intro p hp
+      simp only [List.mem_append, List.mem_map] at hp
+      rcases hp with ⟨r, hr, rfl⟩ | hp
+      · obtain ⟨hra, hnz, hacct, hc⟩ := hrow r hr
+        have hw := hown r hra
+        exact ⟨hacct, ⟨hw.1, hw.2, fun _ => by simpa [Dec.isZero] using hnz⟩, hc⟩
+      · unfold balancing at hp
+        split at hp
+        · cases hp
+        · rename_i hz
+          simp only [List.mem_singleton] at hp
+          subst hp
+          refine ⟨heqa, ⟨by simpa [Dec.negate] using hdw.1, by simpa [Dec.negate] using hdw.2, fun _ => ?_⟩, hcomm⟩
+          simpa [Dec.negate, Dec.isZero] using hz
+
 
 end E2E
 end Tackler
